@@ -123,8 +123,8 @@ def colTypeToField (c : ColDef) : FieldDef :=
   | .boolean => ⟨bytesToName c.name, .boolean, 0⟩
 
 /-- `EvaluateCreateTable` -/
-def evalCreateTable (db : DB) (name : Bytes) (cols : List ColDef) (flushOrder : List Nat) : Res Unit :=
-  liftS db (createTable (cols.map colTypeToField) name flushOrder) fun _ s => .ok () { db with store := s }
+def evalCreateTable (db : DB) (name : Bytes) (cols : List ColDef) (flushOrder : List Nat) (doFlush : Bool := true) : Res Unit :=
+  liftS db (createTable (cols.map colTypeToField) name flushOrder doFlush) fun _ s => .ok () { db with store := s }
 
 /-- the timer's (or Close's) page flush -/
 def flush (db : DB) (order : List Nat) : Res Unit :=
